@@ -6,7 +6,7 @@
 
   Core Lean only.  Every table / syntax byte comes from Gen/Config.lean, which the translator
   regenerates from /repo (and from the running CPython for `bytes.strip/isalnum/lower`) on every run.
-  The model describes the code that exists, defects included.
+  The model describes the code that exists (after the repairs 6d569a0 and f1ebc7b), defects included.
 -/
 import DulwichModel.Model.Basic
 import DulwichModel.Gen.Config
@@ -60,6 +60,7 @@ def escapeValue (v : Bytes) : Bytes := applyWrites Gen.Config.escapeWrites v
 
 /-- the condition of `_format_string` -/
 def needsQuote (v : Bytes) : Bool :=
+  (Gen.Config.quoteIfStripChanges && strip v != v) ||
   (match v.head? with | some c => Gen.Config.quoteIfStartsWith.contains c | none => false) ||
   (match v.getLast? with | some c => Gen.Config.quoteIfEndsWith.contains c | none => false) ||
   v.any (fun c => Gen.Config.quoteIfContains.contains c)
@@ -123,15 +124,17 @@ def checkVariableName (s : Bytes) : Bool :=
 def checkSectionName (s : Bytes) : Bool :=
   s.all (fun c => isAlnum c || Gen.Config.sectionNameExtra.contains c)
 
-def stripCommentsAux : Bytes → Bool → Bytes
-  | [], _ => []
-  | c :: rest, opn =>
-    if c = Gen.Config.stripCommentQuote then c :: stripCommentsAux rest (!opn)
+def stripCommentsAux : Bytes → (opn esc : Bool) → Bytes
+  | [], _, _ => []
+  | c :: rest, opn, esc =>
+    if esc then c :: stripCommentsAux rest opn false
+    else if c = Gen.Config.stripCommentEscape then c :: stripCommentsAux rest opn true
+    else if c = Gen.Config.stripCommentQuote then c :: stripCommentsAux rest (!opn) false
     else if !opn && Gen.Config.stripCommentChars.contains c then []
-    else c :: stripCommentsAux rest opn
+    else c :: stripCommentsAux rest opn false
 
-/-- `_strip_comments` (quote-aware but not backslash-aware) -/
-def stripComments (line : Bytes) : Bytes := stripCommentsAux line false
+/-- `_strip_comments` (quote-aware; a backslash escapes the next byte, inside and outside quotes) -/
+def stripComments (line : Bytes) : Bytes := stripCommentsAux line false false
 
 /-- number of trailing `x` bytes -/
 def trailingCount (x : UInt8) (s : Bytes) : Nat := (s.reverse.takeWhile (· = x)).length
@@ -361,36 +364,13 @@ def readFile (data : Bytes) : Except Err Cfg :=
   | .error e => .error e
   | .ok st => .ok st.cfg
 
-/-! ## well-formedness predicates used by the theorems (decidable; evaluated by the driver too) -/
+/-! ## well-formedness predicates used by the theorems (decidable; evaluated by the driver too)
 
-def CR : UInt8 := 13
-def SEMI : UInt8 := 59
-def VT : UInt8 := 11
-def FF : UInt8 := 12
+Values need none: every byte string round-trips. -/
 
-/-- Values for which write→read is the identity.  A value is excluded iff
-  * it contains CR (written as backslash-`r`, which the reader does not know), or
-  * it is written unquoted (`needsQuote v = false`) and contains `;` (read as a comment), or
-  * it is written unquoted and starts or ends with VT or FF (removed by `bytes.strip()`). -/
-def wfValue (v : Bytes) : Bool :=
-  !v.contains CR &&
-  (needsQuote v ||
-    (!v.contains SEMI &&
-     !(v.head? = some VT || v.head? = some FF) &&
-     !(v.getLast? = some VT || v.getLast? = some FF)))
-
-/-- `#`/`;` seen by `_strip_comments` outside its (backslash-blind) notion of a quoted string when it
-scans the escaped subsection: a comment character preceded by an odd number of `"` in the subsection. -/
-def subCommentHazard : Bytes → Bool → Bool
-  | [], _ => false
-  | c :: rest, odd =>
-    if c = Gen.Config.stripCommentQuote then subCommentHazard rest (!odd)
-    else if odd && Gen.Config.stripCommentChars.contains c then true
-    else subCommentHazard rest odd
-
-/-- Subsections whose header is written and read back. -/
+/-- Subsections the writer accepts (git forbids LF and NUL in a subsection; `_escape_subsection` raises). -/
 def wfSubsection (s : Bytes) : Bool :=
-  !s.any (fun c => Gen.Config.subsectionForbidden.contains c) && !subCommentHazard s false
+  !s.any (fun c => Gen.Config.subsectionForbidden.contains c)
 
 /-- Section names the reader accepts back unchanged: `isalnum`/`-` (and `.` only when a subsection
 follows — `[a.b]` is the legacy spelling of section `a`, subsection `b`). -/
@@ -402,7 +382,7 @@ def wfSection (s : Section) : Bool :=
 /-- non-empty variable names over `isalnum`/`-` (the code also round-trips the empty name; git requires a leading letter) -/
 def wfKey (k : Bytes) : Bool := !k.isEmpty && checkVariableName k
 
-def wfEntries (d : Entries) : Bool := d.all (fun e => wfKey e.1 && wfValue e.2)
+def wfEntries (d : Entries) : Bool := d.all (fun e => wfKey e.1)
 
 /-- sections pairwise distinct under `lower_key` (what `ConfigDict.set/add` maintain) -/
 def distinctSections : Cfg → Bool
